@@ -31,14 +31,14 @@ def switches(ctx):
     return sw, cfg
 
 
-def h_dest(ctx, N, mode, prefix=(), limits=2, reject=False):
+def h_dest(ctx, N, mode, prefix=(), limits=2, reject=False, disposition=False):
     w = World(ctx)
     mode = ACK if mode == "ack" else UNACK
     sw, icfg = switches(ctx)
     closure = bool(ctx.choice("closure", 2))
     sc = DstScenario(ctx, w, mode=mode, cktype=ChecksumType.CRC_32, closure=closure,
                      rig_kwargs={"indications": icfg, "immediate_nak": True, "ack_limit": limits,
-                                 "nak_limit": limits, "check_limit": limits})
+                                 "nak_limit": limits, "check_limit": limits, "disposition": disposition})
     S = sc.S
     if reject:
         # the filestore refuses to create / truncate the destination file (default handler: cancellation)
@@ -255,6 +255,9 @@ def plan(tier):
                           twin_share=0.05, obligations=["finished_pdu"]))
     specs.append(Spec(f"dest/unack/after-eof-missing/limits=1/N={3 if q else 4}", "vf.harness.c15:h_dest",
                       {"N": 3 if q else 4, "mode": "unack", "prefix": ["MD", "EOF"], "limits": 1}, twin_share=0.05))
+    # disposition on cancellation: the file status in the indication is the one in the Finished PDU
+    specs.append(Spec("dest/ack/disposition-on-cancellation/N=3", "vf.harness.c15:h_dest",
+                      {"N": 3, "mode": "ack", "disposition": True}, twin_share=0.05, obligations=["finished_pdu"]))
     for mode in ("ack", "unack"):
         specs.append(Spec(f"dest/{mode}/file-creation-rejected/N=3", "vf.harness.c15:h_dest",
                           {"N": 3, "mode": mode, "reject": True}, twin_share=0.05,
